@@ -86,12 +86,14 @@ PROPS.update({
                    "ReplaceStep.invert's fields; lemmas: the inverted replace / replace-around step's map maps every position like the inverted map (complete unrolling); mark-step inverses swap add/remove.",
                    "replay and undo of whole histories, single-step undo, inverse maps on concrete steps.",
                    min_obligations=40, bounded_only=["exact undo / replay of histories (needs the splice semantics of replace)"]),
-    "C09": _hybrid("C09", "c09", ["contracts.model_core"],
-                   "Fragment.find_index (the index / offset pair every position lookup starts from: offset == prefix sum of child sizes, the position lies at that boundary or strictly inside the child chosen by the rounding side; raises exactly outside 0..size; terminates), "
-                   "child / maybe_child (None exactly outside 0..n-1) / first_child / last_child / child_count, node_size of text, leaf and branch nodes.",
-                   "ResolvedPos.resolve and every derived accessor, node_at, marks, nodes_between, text_between (UTF-16), range_has_mark against an oracle tree for every position / pair of positions.",
-                   assumptions=("A1", "A4", "A5", "A6", "A7", "A10", "Z3", "PYVC"), min_obligations=90,
-                   bounded_only=["ResolvedPos.resolve and accessors", "nodes_between / text_between / range_has_mark", "marks()"]),
+    "C09": _hybrid("C09", "c09", ["contracts.model_core", "contracts.model_pos"],
+                   "ResolvedPos.resolve establishes the representation invariant of a resolved position for every document and every position 0..size (raises exactly outside; terminates): one [node, index, offset] triple per level, "
+                   "each level's node is the indexed child of the level above, each offset is the prefix sum of child sizes (the flat token position of that child boundary), the position is at the last boundary or strictly inside the text child starting there, "
+                   "parent_offset is the distance to the parent's content start. From that invariant: node, index, index_after, start, end, before, after, text_offset, parent, doc, pos_at_index, shared_depth, same_parent, resolve_depth and "
+                   "NodeRange.parent / start_index / end_index / start / end return exactly the path-derived values. Fragment.find_index, child / maybe_child (None exactly outside 0..n-1), first_child / last_child, node_size as for C02.",
+                   "node_before / node_after (text cutting), marks(), block_range, node_at, nodes_between, text_between (UTF-16), range_has_mark against an oracle tree for every position / pair of positions; that the path-derived values are the flat-token values.",
+                   assumptions=("A1", "A2", "A4", "A5", "A6", "A7", "A10", "Z3", "PYVC"), min_obligations=220, shards={"ResolvedPos.resolve": 8},
+                   bounded_only=["node_before / node_after / marks() / block_range", "nodes_between / text_between / range_has_mark / node_at", "token-level reading of the path (oracle)"]),
     "C11": _bounded("C11", "c11", "7 replace-family operations x ranges x payload-valid slices: totality (2 s alarm), oracle validity, prefix/suffix preservation, no invented content."),
     "C12": _hybrid("C12", "c12", ["contracts.model_pos"],
                    "can_cut (== both partial replacements are accepted by the parent's content automaton), lift_target (result in range, only through non-isolating ancestors), Fragment / Node.maybe_child (None exactly outside 0..n-1: what join_point relies on at index 0), "
@@ -174,7 +176,7 @@ PROPS.update({
                    "Slice.max_open(open_isolating=False) opens no isolating node on either spine; lift_target returns only depths reached through non-isolating ancestors.",
                    "every range inside every isolating node x replace-family operations: tokens outside the node unchanged; lift_target / can_split do not cross (the fitter itself is outside the proved set).",
                    assumptions=("A1", "A4", "A5", "A6", "A9", "A10", "Z3", "PYVC"), min_obligations=200, shards={"Slice.max_open": 4, "lift_target": 2},
-                   bounded_only=["Fitter (replace_step) behaviour at isolating boundaries", "can_split", "ResolvedPos accessors (trusted in tier P, checked natively)"]),
+                   bounded_only=["Fitter (replace_step) behaviour at isolating boundaries", "can_split"]),
     "C20": _hybrid("C20", "c20", ["contracts.model_diff"],
                    "find_diff_start and find_diff_end, whole bodies: both terminate (variant on every back-edge including `continue`, recursion on a strictly smaller fragment), index safely, "
                    "return None exactly when the fragments are equal (the recursive definition of Node.eq / Fragment.eq) and otherwise exactly the position given by the recursive first-difference / last-difference "
